@@ -552,6 +552,11 @@ def idempotence(tier):
     for name in ("a.py", "b.c"):
         twice("merge on the first run", {name: "zz BODY1\n"}, name, ["--merge-copyrights"],
               (["Copyright 2015 Jane", "Copyright 2019 Jane", "SPDX-FileCopyrightText: 2001 Other"], ["MIT"], []), n=3)
+    lit = {".reuse/templates/litcontrib.jinja2": "{% for copyright_line in copyright_lines %}\n{{ copyright_line }}\n{% endfor %}\n"
+                                                 "SPDX-FileContributor: Template Person\n"
+                                                 "{% for contributor_line in contributor_lines %}\nSPDX-FileContributor: {{ contributor_line }}\n{% endfor %}\n"
+                                                 "{% for expression in spdx_expressions %}\nSPDX-License-Identifier: {{ expression }}\n{% endfor %}\n"}
+    twice("template with a literal contributor line", {"a.py": "zz BODY1\n", **lit}, "a.py", ["--template", "litcontrib"], infos[0], n=2)
     for table, mk in ((ext_map, lambda e: "file" + e), (name_map, lambda n: n)):
         keys = sorted(table)
         for key in (keys if tier == "thorough" else keys[::4]):
